@@ -128,7 +128,9 @@ func (s *Scheduler) runStage(stage *Stage) error {
 		return s.Schedule(stage.Pipeline)
 	}
 
-	t := stage.Task
+	// the task may be shared with other stages, pipelines and direct runs:
+	// the stage's overrides are applied to a copy owned by this stage
+	t := *stage.Task
 	if stage.Env != nil {
 		if t.Env == nil {
 			t.Env = stage.Env
@@ -141,9 +143,10 @@ func (s *Scheduler) runStage(stage *Stage) error {
 		if t.Variables == nil {
 			t.Variables = stage.Variables
 		} else {
-			t.Variables = t.Env.Merge(stage.Variables)
+			t.Variables = t.Variables.Merge(stage.Variables)
 		}
 	}
+	stage.Task = &t
 
 	return s.taskRunner.Run(stage.Task)
 }
